@@ -241,7 +241,7 @@ pub struct Sem<'a> {
     pub excluded: usize,
 }
 
-const FIELD_TYPES: [fn() -> Ty; 8] = [
+const FIELD_TYPES: [fn() -> Ty; 12] = [
     || Ty::Int,
     || Ty::Str,
     || Ty::Bit,
@@ -250,6 +250,10 @@ const FIELD_TYPES: [fn() -> Ty; 8] = [
     || Ty::List(Box::new(Ty::Str)),
     || Ty::Dag,
     || Ty::Code,
+    || Ty::Int,
+    || Ty::Str,
+    || Ty::List(Box::new(Ty::Bit)),
+    || Ty::List(Box::new(Ty::List(Box::new(Ty::Int)))),
 ];
 
 impl<'a> Sem<'a> {
